@@ -309,6 +309,9 @@ func (n *MNode) text(cx int) string {
 		for _, k := range n.Kids {
 			p = append(p, k.text(cxAssign))
 		}
+		if n.Raw == "spread" {
+			return n.Name + "(" + strings.Join(p, ", ") + "...)"
+		}
 		return n.Name + "(" + strings.Join(p, ", ") + ")"
 	case nSel:
 		return n.Kids[0].text(cxPrimary) + "." + n.Name
@@ -573,12 +576,22 @@ func (e *mEnv) eval(n *MNode) (MV, error) {
 			return mNull(), errModelNotFunc
 		}
 		args := make([]MV, 0, len(n.Kids))
-		for _, k := range n.Kids {
+		for i, k := range n.Kids {
+			if n.Name == "poke" && i == 0 {
+				continue // `this`: the data map itself, handed to the host
+			}
 			v, err := e.eval(k)
 			if err != nil {
 				return mNull(), err
 			}
 			args = append(args, v)
+		}
+		if n.Raw == "spread" {
+			last := args[len(args)-1]
+			if last.K != mkArr {
+				return mNull(), errModelType
+			}
+			args = append(args[:len(args)-1], last.A...)
 		}
 		var p []string
 		for _, a := range args {
@@ -605,6 +618,15 @@ func (e *mEnv) eval(n *MNode) (MV, error) {
 			return mNull(), nil
 		case "pair":
 			return mArr([]MV{args[0], args[1]}), nil
+		case "cat":
+			return mArr(append([]MV{}, args...)), nil
+		case "poke":
+			// the host writes the entry into the data map it was handed
+			name := args[0].S
+			old, had := e.m.this[name]
+			e.assigned = append(e.assigned, assignRec{name, old, had, args[1]})
+			e.m.setEntry(name, args[1])
+			return args[1], nil
 		}
 		return mNull(), errModelNotFunc
 	}
